@@ -256,30 +256,29 @@ theorem sqrtLoHi_sound (q : ℚ) (hq : 0 < q) :
   simp only
   have hnum : 0 < q.num := Rat.num_pos.2 hq
   have hden : (0 : ℚ) < (q.den : ℚ) := by exact_mod_cast q.den_pos
-  have hK : (0 : ℚ) < ((K30 : ℕ) : ℚ) := by unfold K30; positivity
+  have hk : ((K30 : ℕ) : ℚ) = 10 ^ 30 := by unfold K30; norm_num
+  have hK : (0 : ℚ) < ((K30 : ℕ) : ℚ) := by rw [hk]; positivity
   set N : ℕ := q.num.toNat * q.den * K30 * K30 with hN
-  have hqe : q = (q.num.toNat : ℚ) / (q.den : ℚ) := by
+  have hqd : ((q.num.toNat : ℕ) : ℚ) = q * (q.den : ℚ) := by
     have h1 : ((q.num.toNat : ℕ) : ℤ) = q.num := Int.toNat_of_nonneg (le_of_lt hnum)
     have h2 : ((q.num.toNat : ℕ) : ℚ) = (q.num : ℚ) := by exact_mod_cast h1
-    rw [h2]; exact (Rat.num_div_den q).symm
+    rw [h2]; exact (Rat.mul_den_eq_num q).symm
   have hden' : (((q.den * K30 : ℕ)) : ℚ) = (q.den : ℚ) * (K30 : ℚ) := by push_cast; ring
   have hNq : (N : ℚ) = q * ((q.den : ℚ) * (K30 : ℚ)) ^ 2 := by
     rw [hN]; push_cast
-    conv_rhs => rw [hqe]
-    field_simp
+    rw [hqd]; ring
   have hlo : ((Nat.sqrt N : ℕ) : ℚ) ^ 2 ≤ (N : ℚ) := by exact_mod_cast Nat.sqrt_le' N
   have hhi : (N : ℚ) < ((Nat.sqrt N + 1 : ℕ) : ℚ) ^ 2 := by exact_mod_cast Nat.lt_succ_sqrt' N
   have hD : (0 : ℚ) < (q.den : ℚ) * (K30 : ℚ) := by positivity
   rw [hden']
-  refine ⟨by positivity, ?_, ?_, ?_⟩
-  · rw [div_pow, div_le_iff₀ (by positivity)]
+  refine ⟨div_nonneg (Nat.cast_nonneg _) (le_of_lt hD), ?_, ?_, ?_⟩
+  · rw [div_pow, div_le_iff₀ (pow_pos hD 2)]
     rw [← hNq]; exact hlo
-  · rw [div_pow, lt_div_iff₀ (by positivity)]
+  · rw [div_pow, lt_div_iff₀ (pow_pos hD 2)]
     rw [← hNq]; exact hhi
-  · rw [← sub_div, div_le_div_iff₀ hD (by positivity)]
+  · rw [← sub_div, div_le_div_iff₀ hD (by norm_num)]
     push_cast
     have : (1 : ℚ) ≤ (q.den : ℚ) := by exact_mod_cast q.den_pos
-    have hk : ((K30 : ℕ) : ℚ) = 10 ^ 30 := by unfold K30; push_cast; rfl
     rw [hk]
     nlinarith
 
